@@ -165,7 +165,12 @@ impl QueryNode {
                 self.engine.extract_column_predicates(sql).await,
             ) {
                 (Ok(time_range), Ok(predicates)) => (time_range, predicates),
-                (Err(e), _) | (_, Err(e)) if is_table_not_found_error(&e) => {
+                // The placeholder table only knows the built-in default schema: a statement that
+            // does not plan against it (other labels, other timestamp type) must be planned
+            // against the real chunks before it is rejected.
+            (Err(e), _) | (_, Err(e))
+                if is_table_not_found_error(&e) || self.engine.metrics_table_is_placeholder() =>
+            {
                     let bootstrap_chunks = self.metadata.list_chunks().await?;
                     let bootstrap_paths: Vec<String> = bootstrap_chunks
                         .iter()
@@ -196,6 +201,22 @@ impl QueryNode {
                 .pin_registry
                 .as_ref()
                 .map(|r| r.pin(chunk_paths.clone()));
+
+            // Nothing selected while the placeholder (built-in default schema) is still bound:
+            // bind the real chunks once so the empty table below keeps their schema and the
+            // statement plans the same way as it would over the stored data.
+            if chunk_paths.is_empty() && self.engine.metrics_table_is_placeholder() {
+                let bootstrap_paths: Vec<String> = self
+                    .metadata
+                    .list_chunks()
+                    .await?
+                    .iter()
+                    .map(|chunk| chunk.chunk_path.clone())
+                    .collect();
+                self.engine
+                    .register_metrics_table_for_chunks(&bootstrap_paths)
+                    .await?;
+            }
 
             // Check if any shard is in a dual-write split phase (causes duplicate data)
             let needs_dedup = self.metadata.has_active_split().await.unwrap_or(false);
